@@ -48,12 +48,18 @@ func (prm *pauseRequestMessage) handle(rm *ResponseManager) {
 
 type errorRequestMessage struct {
 	requestID graphsync.RequestID
-	err       error
-	response  chan error
+	// subscriber, when set, names the response the error is about: if the ID
+	// now belongs to another response, that one is left alone
+	subscriber *subscriber
+	err        error
+	response   chan error
 }
 
 func (erm *errorRequestMessage) handle(rm *ResponseManager) {
-	err := rm.abortRequest(rm.ctx, erm.requestID, erm.err)
+	var err error
+	if rm.isResponseOf(erm.requestID, erm.subscriber) {
+		err = rm.abortRequest(rm.ctx, erm.requestID, erm.err)
+	}
 	select {
 	case <-rm.ctx.Done():
 	case erm.response <- err:
@@ -142,12 +148,15 @@ func (psm *peerStateMessage) handle(rm *ResponseManager) {
 }
 
 type terminateRequestMessage struct {
-	requestID graphsync.RequestID
-	done      chan<- struct{}
+	requestID  graphsync.RequestID
+	subscriber *subscriber
+	done       chan<- struct{}
 }
 
 func (trm *terminateRequestMessage) handle(rm *ResponseManager) {
-	rm.terminateRequest(trm.requestID)
+	if rm.isResponseOf(trm.requestID, trm.subscriber) {
+		rm.terminateRequest(trm.requestID)
+	}
 	select {
 	case <-rm.ctx.Done():
 	case trm.done <- struct{}{}:
